@@ -231,7 +231,7 @@ def gen_cases(ctx):
         return rng.choice([-1, nsamp, 100, -7]) if rng.chance(1, 12) else rng.below(nsamp)
     def anydim():
         return rng.choice([0, -1, INT_MIN, -100]) if rng.chance(1, 12) else big()
-    n = ctx.n(6000, 100000)
+    n = ctx.n(6000, 40000)
     for _ in range(n):
         add("pw %d %d %d" % (rng.range(-1, 3), anydim(), anysamp()), "rand-planewidth")
         add("ph %d %d %d" % (rng.range(-1, 3), anydim(), anysamp()), "rand-planeheight")
@@ -261,7 +261,7 @@ def gen_cases(ctx):
                 for f in range(4):
                     add("lay %d %d %d %d %d" % (f, w, rng.choice(ALIGNS), h // 2, s), "model-layout")
     # ---- unified layout through the model (all four functions) and the codec-path dimensions
-    nl = ctx.n(6000, 60000)
+    nl = ctx.n(6000, 30000)
     for i in range(nl):
         w, h = (rng.range(1, 70), rng.range(1, 70)) if i % 2 == 0 else (big(), rng.choice([1, 2, rng.range(1, 70000)]))
         a = rng.choice(ALIGNS) if i % 3 else anyalign()
@@ -296,7 +296,7 @@ def gen_cases(ctx):
     # ---- composition on random JPEGs
     pfs = [0, 1, 2, 3, 4, 5, 6, 7, 8, 9, 10]
     nsf = len(T["sf"])
-    nc = ctx.n(7000, 150000)
+    nc = ctx.n(7000, 50000)
     for i in range(nc):
         k = rng.below(20)
         if k < 14:
